@@ -125,7 +125,15 @@ pub mod gds21 {
     impl Default for GdsPath { fn default() -> (r: Self) ensures r.layer == 0, r.datatype == 0, r.xy@.len() == 0, r.width is None, r.path_type is None, r.begin_extn is None, r.end_extn is None, r.elflags is None, r.plex is None, r.properties@.len() == 0 { GdsPath { layer: 0, datatype: 0, xy: Vec::new(), width: None, path_type: None, begin_extn: None, end_extn: None, elflags: None, plex: None, properties: Vec::new() } } }
     impl Default for GdsTextElem { fn default() -> (r: Self) ensures r.layer == 0, r.texttype == 0, r.xy.x == 0, r.xy.y == 0, r.presentation is None, r.path_type is None, r.width is None, r.strans is None, r.elflags is None, r.plex is None, r.properties@.len() == 0 { GdsTextElem { string: String::new(), layer: 0, texttype: 0, xy: GdsPoint { x: 0, y: 0 }, presentation: None, path_type: None, width: None, strans: None, elflags: None, plex: None, properties: Vec::new() } } }
     impl Default for GdsStructRef { fn default() -> (r: Self) ensures r.xy.x == 0, r.xy.y == 0, r.strans is None, r.elflags is None, r.plex is None, r.properties@.len() == 0 { GdsStructRef { name: String::new(), xy: GdsPoint { x: 0, y: 0 }, strans: None, elflags: None, plex: None, properties: Vec::new() } } }
+    /// R5: GdsStruct without its dates (not read by the raw exporter); `new(name)` = that name, no elements
+    pub struct GdsStruct { pub name: String, pub elems: Vec<GdsElement> }
+    impl GdsStruct {
+        #[verifier::external_body]
+        pub fn new(name: &String) -> (r: Self) ensures r.name@ == name@, r.elems@.len() == 0 { unimplemented!() }
+    }
     // ---- model of #[derive(derive_more::From)] on GdsElement — assumption ----
+    impl vstd::std_specs::convert::FromSpecImpl<GdsStructRef> for GdsElement { open spec fn obeys_from_spec() -> bool { true } open spec fn from_spec(b: GdsStructRef) -> GdsElement { GdsElement::GdsStructRef(b) } }
+    impl From<GdsStructRef> for GdsElement { fn from(b: GdsStructRef) -> GdsElement { GdsElement::GdsStructRef(b) } }
     impl vstd::std_specs::convert::FromSpecImpl<GdsBoundary> for GdsElement { open spec fn obeys_from_spec() -> bool { true } open spec fn from_spec(b: GdsBoundary) -> GdsElement { GdsElement::GdsBoundary(b) } }
     impl From<GdsBoundary> for GdsElement { fn from(b: GdsBoundary) -> GdsElement { GdsElement::GdsBoundary(b) } }
     impl vstd::std_specs::convert::FromSpecImpl<GdsPath> for GdsElement { open spec fn obeys_from_spec() -> bool { true } open spec fn from_spec(b: GdsPath) -> GdsElement { GdsElement::GdsPath(b) } }
@@ -142,6 +150,52 @@ pub open spec fn same_pt(g: gds21::GdsPoint, p: Point) -> bool { g.x == p.x && g
 pub open spec fn same_pts(g: Seq<gds21::GdsPoint>, p: Seq<Point>) -> bool { g.len() == p.len() && forall|i: int| 0 <= i < p.len() ==> same_pt(#[trigger] g[i], p[i]) }
 pub open spec fn all_fit32(p: Seq<Point>) -> bool { forall|i: int| 0 <= i < p.len() ==> fits32(#[trigger] p[i]) }
 
+/// GDSII element `g` is the export of `shape` on layer/datatype `ls`
+pub open spec fn shape_gds(shape: Shape, g: gds21::GdsElement, ls: gds21::GdsLayerSpec) -> bool {
+    match (shape, g) {
+        // rectangle: five points, the four corners starting at p0, closed back at p0
+        (Shape::Rect(rc), gds21::GdsElement::GdsBoundary(b)) => b.layer == ls.layer && b.datatype == ls.xtype && b.xy@.len() == 5
+            && same_pt(b.xy@[0], rc.p0) && b.xy@[1].x == rc.p1.x && b.xy@[1].y == rc.p0.y && same_pt(b.xy@[2], rc.p1)
+            && b.xy@[3].x == rc.p0.x && b.xy@[3].y == rc.p1.y && same_pt(b.xy@[4], rc.p0),
+        // polygon: its n points, then the first again
+        (Shape::Polygon(p), gds21::GdsElement::GdsBoundary(b)) => b.layer == ls.layer && b.datatype == ls.xtype
+            && b.xy@.len() == p.points@.len() + 1 && same_pts(b.xy@.take(p.points@.len() as int), p.points@) && same_pt(b.xy@.last(), p.points@[0]),
+        // path: exactly its own points (an open path stays open), and its width
+        (Shape::Path(p), gds21::GdsElement::GdsPath(b)) => b.layer == ls.layer && b.datatype == ls.xtype
+            && same_pts(b.xy@, p.points@) && b.width == Some(p.width as i32) && p.width <= i32::MAX,
+        _ => false,
+    }
+}
+/// GDSII element `g` is the net label of `shape`: a text with the net name on layer/texttype `ls`, placed inside the shape (C07), so that re-import finds it
+pub open spec fn label_gds(g: gds21::GdsElement, net: Seq<char>, shape: Shape, ls: gds21::GdsLayerSpec) -> bool {
+    match g {
+        gds21::GdsElement::GdsTextElem(t) => t.layer == ls.layer && t.texttype == ls.xtype && t.string@ == net
+            && exists|q: Point| same_pt(t.xy, q) && shape_holds(shape, q),
+        _ => false,
+    }
+}
+/// the (layer number, data/text type) the library's layer table assigns to a (layer key, purpose) pair — assumption (export_layerspec is modelled)
+pub uninterp spec fn nums_of(k: LayerKey, p: LayerPurpose) -> Option<gds21::GdsLayerSpec>;
+pub open spec fn shape_pre(s: Shape) -> bool { shape_ok(s) && match s { Shape::Polygon(p) => p.points.len() >= 1, Shape::Path(p) => p.points.len() >= 1, _ => true } }
+/// the GDSII elements one raw element exports to: its shape, then (only if it has a net) its label on the layer's Label purpose
+pub open spec fn elem_gds(gs: Seq<gds21::GdsElement>, e: Element) -> bool {
+    &&& nums_of(e.layer, e.purpose) is Some &&& gs.len() == (if e.net is Some { 2int } else { 1int })
+    &&& shape_gds(e.inner, gs[0], nums_of(e.layer, e.purpose)->0)
+    &&& e.net is Some ==> nums_of(e.layer, LayerPurpose::Label) is Some && label_gds(gs[1], e.net->0@, e.inner, nums_of(e.layer, LayerPurpose::Label)->0)
+}
+pub open spec fn gds_count(e: Element) -> int { if e.net is Some { 2 } else { 1 } }
+/// `gs` is the concatenation of the exports of `es`, in order
+pub open spec fn elems_gds(gs: Seq<gds21::GdsElement>, es: Seq<Element>) -> bool decreases es.len() {
+    if es.len() == 0 { gs.len() == 0 } else {
+        let n = gds_count(es.last());
+        gs.len() >= n && elems_gds(gs.take(gs.len() - n), es.drop_last()) && elem_gds(gs.skip(gs.len() - n), es.last())
+    }
+}
+pub open spec fn sref_gds(g: gds21::GdsStructRef, inst: Instance) -> bool {
+    &&& fits32(inst.loc) &&& same_pt(g.xy, inst.loc)
+    &&& (inst.reflect_vert || inst.angle is Some) == (g.strans is Some)
+    &&& g.strans is Some ==> (g.strans->0.reflected == inst.reflect_vert && g.strans->0.angle == inst.angle && !g.strans->0.abs_mag && !g.strans->0.abs_angle && g.strans->0.mag is None)
+}
 // =====================================================================================================
 // EXPORTER (layout21raw/src/gds.rs), extracted
 // =====================================================================================================
@@ -157,12 +211,12 @@ impl GdsExporter {
 //@ fn layout21raw/src/gds.rs :: impl<'lib> GdsExporter<'lib> :: fn export_point
 //@   ret r
 //@   spec
-//|     ensures r is Ok <==> fits32(*pt), r is Ok ==> same_pt(r->Ok_0, *pt),
+//|     ensures final(self).ctx == old(self).ctx, r is Ok <==> fits32(*pt), r is Ok ==> same_pt(r->Ok_0, *pt),
 //@ end
     /// ASSUMED element-wise contract of `points.iter().map(|p| self.export_point(p)).collect::<Result<Vec<_>, _>>()?` (rule R6)
     #[verifier::external_body]
     fn vp_export_points(&mut self, pts: &Vec<Point>) -> (r: LayoutResult<Vec<gds21::GdsPoint>>)
-        ensures r is Ok <==> all_fit32(pts@), r is Ok ==> same_pts(r->Ok_0@, pts@),
+        ensures final(self).ctx == old(self).ctx, r is Ok <==> all_fit32(pts@), r is Ok ==> same_pts(r->Ok_0@, pts@),
     { unimplemented!() }
 //@ fn layout21raw/src/gds.rs :: impl<'lib> GdsExporter<'lib> :: fn export_shape
 //@   ret r
@@ -170,21 +224,9 @@ impl GdsExporter {
 //@   sub R3 /let mut xy = Vec::new\(\);/ => let mut xy: Vec<gds21::GdsPoint> = Vec::new();
 //@   spec
 //|     requires match *shape { Shape::Polygon(p) => p.points.len() >= 1, Shape::Path(p) => p.points.len() >= 1, _ => true },
-//|     ensures r is Ok ==> (match (*shape, r->Ok_0) {
-//|         // rectangle: five points, the four corners starting at p0, closed back at p0
-//|         (Shape::Rect(rc), gds21::GdsElement::GdsBoundary(b)) => b.layer == layerspec.layer && b.datatype == layerspec.xtype && b.xy@.len() == 5
-//|             && same_pt(b.xy@[0], rc.p0) && b.xy@[1].x == rc.p1.x && b.xy@[1].y == rc.p0.y && same_pt(b.xy@[2], rc.p1)
-//|             && b.xy@[3].x == rc.p0.x && b.xy@[3].y == rc.p1.y && same_pt(b.xy@[4], rc.p0),
-//|         // polygon: its n points, then the first again
-//|         (Shape::Polygon(p), gds21::GdsElement::GdsBoundary(b)) => b.layer == layerspec.layer && b.datatype == layerspec.xtype
-//|             && b.xy@.len() == p.points@.len() + 1 && same_pts(b.xy@.take(p.points@.len() as int), p.points@) && same_pt(b.xy@.last(), p.points@[0]),
-//|         // path: exactly its own points (an open path stays open), and its width
-//|         (Shape::Path(p), gds21::GdsElement::GdsPath(b)) => b.layer == layerspec.layer && b.datatype == layerspec.xtype
-//|             && same_pts(b.xy@, p.points@) && b.width == Some(p.width as i32) && p.width <= i32::MAX,
-//|         _ => false,
-//|     }),
+//|     ensures r is Ok ==> final(self).ctx@ == old(self).ctx@ && shape_gds(*shape, r->Ok_0, *layerspec),
 //@   loop 1 iter it
-//|                     invariant same_pts(xy@, path.points@.take(it.index@ as int)), it.index@ <= path.points@.len(),
+//|                     invariant self.ctx == old(self).ctx, same_pts(xy@, path.points@.take(it.index@ as int)), it.index@ <= path.points@.len(),
 //@   loopend 1
 //|                     proof { assert(path.points@.take(it.index@ + 1) == path.points@.take(it.index@ as int).push(*p)); }
 //@ end
@@ -194,12 +236,7 @@ impl GdsExporter {
 //@   sub R5 /string: net\.into\(\),/ => string: net.clone(),
 //@   spec
 //|     requires shape_ok(*shape),
-//|     ensures r is Ok ==> (match r->Ok_0 {
-//|         gds21::GdsElement::GdsTextElem(t) => t.layer == layerspec.layer && t.texttype == layerspec.xtype && t.string@ == net@
-//|             // the label lies inside the shape it names (C07), so that re-import finds it
-//|             && exists|q: Point| same_pt(t.xy, q) && shape_holds(*shape, q),
-//|         _ => false,
-//|     }),
+//|     ensures r is Ok ==> final(self).ctx@ == old(self).ctx@ && label_gds(r->Ok_0, net@, *shape, *layerspec),
 //@ end
 }
 
@@ -472,14 +509,69 @@ impl GdsExporter {
 //@   ret r
 //@   sub R6 /inst\.angle\.map\(\|a\| f64::from\(a\)\)/ => inst.angle
 //@   spec
+//|     ensures r is Ok ==> final(self).ctx@ == old(self).ctx@ && sref_gds(r->Ok_0, *inst),
+//@   before /^        Ok\(gdsinst\)$/
+//|         proof { assert(self.ctx@ =~= old(self).ctx@); }
+//@ end
+    /// model of GdsExporter::export_layerspec (reads the library's layer table): the pair's numbers, or an error if the layer or the purpose is not defined
+    #[verifier::external_body]
+    pub fn export_layerspec(&mut self, layer: &LayerKey, purpose: &LayerPurpose) -> (r: LayoutResult<gds21::GdsLayerSpec>)
+        ensures final(self).ctx == old(self).ctx, r is Ok <==> nums_of(*layer, *purpose) is Some, r is Ok ==> r->Ok_0 == nums_of(*layer, *purpose)->0,
+    { unimplemented!() }
+//@ fn layout21raw/src/gds.rs :: impl<'lib> GdsExporter<'lib> :: fn export_element
+//@   ret r
+//@   spec
+//|     requires shape_pre(elem.inner),
+//|     ensures r is Ok ==> final(self).ctx@ == old(self).ctx@ && elem_gds(r->Ok_0@, *elem),
+//@ end
+//@ fn layout21raw/src/gds.rs :: impl<'lib> GdsExporter<'lib> :: fn export_layout
+//@   ret r
+//@   sub R6 /for gdselem in self\.export_element\(elem\)\?\.into_iter\(\) \{\s*elems\.push\(gdselem\);\s*\}/ => vp_extend_gds(&mut elems, self.export_element(elem)?);
+//@   sub R3 /let mut elems = Vec::with_capacity/ => let mut elems: Vec<gds21::GdsElement> = Vec::with_capacity
+//@   spec
+//|     requires cell.elems@.len() + cell.insts@.len() <= usize::MAX, forall|i: int| 0 <= i < cell.elems@.len() ==> shape_pre((#[trigger] cell.elems@[i]).inner),
 //|     ensures r is Ok ==> ({
-//|         let g = r->Ok_0;
-//|         &&& fits32(inst.loc) &&& same_pt(g.xy, inst.loc)
-//|         &&& (inst.reflect_vert || inst.angle is Some) == (g.strans is Some)
-//|         &&& g.strans is Some ==> (g.strans->0.reflected == inst.reflect_vert && g.strans->0.angle == inst.angle && !g.strans->0.abs_mag && !g.strans->0.abs_angle && g.strans->0.mag is None)
+//|         let g = r->Ok_0; let n = cell.insts@.len() as int;
+//|         &&& final(self).ctx@ == old(self).ctx@ &&& g.name@ == cell.name@ &&& g.elems@.len() >= n
+//|         // first one structure reference per instance, in order
+//|         &&& forall|i: int| 0 <= i < n ==> (#[trigger] g.elems@[i]) is GdsStructRef && sref_gds(g.elems@[i]->GdsStructRef_0, cell.insts@[i])
+//|         // then the exports of the elements, in order
+//|         &&& elems_gds(g.elems@.skip(n), cell.elems@)
 //|     }),
+//@   loop 1 iter it
+//|             invariant self.ctx@ == old(self).ctx@.push(ErrorContext::Impl), elems@.len() == it.index@, it.index@ <= cell.insts@.len(),
+//|                 forall|i: int| 0 <= i < cell.elems@.len() ==> shape_pre((#[trigger] cell.elems@[i]).inner),
+//|                 forall|i: int| 0 <= i < it.index@ ==> (#[trigger] elems@[i]) is GdsStructRef && sref_gds(elems@[i]->GdsStructRef_0, cell.insts@[i]),
+//@   loop 2 iter it
+//|             invariant self.ctx@ == old(self).ctx@.push(ErrorContext::Impl).push(ErrorContext::Geometry), elems@.len() >= cell.insts@.len(), it.index@ <= cell.elems@.len(),
+//|                 forall|i: int| 0 <= i < cell.elems@.len() ==> shape_pre((#[trigger] cell.elems@[i]).inner),
+//|                 forall|i: int| 0 <= i < cell.insts@.len() ==> (#[trigger] elems@[i]) is GdsStructRef && sref_gds(elems@[i]->GdsStructRef_0, cell.insts@[i]),
+//|                 elems_gds(elems@.skip(cell.insts@.len() as int), cell.elems@.take(it.index@ as int)),
+//@   before /vp_extend_gds\(&mut elems/
+//|             let ghost e0 = elems@;
+//@   loopend 2
+//|             proof {
+//|                 let n = cell.insts@.len() as int; let t1 = cell.elems@.take(it.index@ + 1); let c = gds_count(*elem);
+//|                 assert(t1.drop_last() == cell.elems@.take(it.index@ as int)); assert(t1.last() == *elem);
+//|                 let a = elems@.skip(n); let a0 = e0.skip(n);
+//|                 assert(elems@.len() == e0.len() + c);
+//|                 assert(a.take(a.len() - c) =~= a0);
+//|                 assert(a.skip(a.len() - c) =~= elems@.skip(e0.len() as int));
+//|                 assert forall|i: int| 0 <= i < n implies (#[trigger] elems@[i]) is GdsStructRef && sref_gds(elems@[i]->GdsStructRef_0, cell.insts@[i]) by { assert(elems@[i] == e0[i]); }
+//|             }
+//@   before /let mut strukt = gds21::GdsStruct::new\(&cell\.name\);/
+//|         proof { assert(cell.elems@.take(cell.elems@.len() as int) == cell.elems@); }
+//@   before /^        Ok\(strukt\)$/
+//|         proof { assert(self.ctx@ =~= old(self).ctx@); }
 //@ end
 }
+/// model of pushing every element of a Vec in order (`for x in v.into_iter() { w.push(x) }`, rule R6)
+#[verifier::external_body]
+pub fn vp_extend_gds(v: &mut Vec<gds21::GdsElement>, w: Vec<gds21::GdsElement>) ensures final(v)@ == old(v)@ + w@ { v.extend(w) }
+//@ item layout21raw/src/data.rs :: struct Layout
+//@ end
+//@ item layout21raw/src/data.rs :: struct TextElement
+//@ end
 
 proof fn canary_shape_ok(s: Shape) requires shape_ok(s), s is Path ensures false {}
 }
